@@ -223,6 +223,12 @@ class Universe:
             "save_objectdb": bool(swarm.get("save_objectdb", False)),
         }
         self.project = Project(self.root, fscommands=self.fs, ropefolder=ROPEFOLDER, **self.prefs)
+        # a second project that uses the first one (multi-project refactorings)
+        self.root2 = os.path.join(self.dir, "proj2")
+        os.makedirs(self.root2)
+        with open(os.path.join(self.root2, "user.py"), "w", encoding="utf-8", newline="") as f:
+            f.write("from core import compute, Shape\nfrom pkg.util import wrap\n\nu = compute(2)\nsh = Shape(1)\nw = wrap(sh)\n")
+        self.project2 = Project(self.root2, ropefolder=None, automatic_soa=False, python_path=[self.root])
 
     def snap(self, meta=True):
         return kernel.snapshot(self.dir, meta=meta)
@@ -308,6 +314,14 @@ def build_request(u, st, task_handle=None):
         if rs is not None:
             kw["resources"] = rs
         return r.get_changes(st["new"], docs=st.get("docs", False), in_hierarchy=st.get("hier", False), **kw)
+    if k == "multi_rename":
+        from rope.refactor import multiproject
+
+        off = _offset(u, st)
+        if off is None:
+            return None
+        mr = multiproject.MultiProjectRefactoring(rename.Rename, [u.project2])
+        return ("multi", mr(p, res, off).get_all_changes(st["new"]))
     if k == "rename_module":
         r = rename.Rename(p, res, None)
         if rs is not None:
@@ -510,12 +524,12 @@ class EffectsEngine(Engine):
         kinds = (["rename"] * 6 + ["rename_module"] * 2 + ["move_global"] * 2 + ["move_module", "move_method"] +
                  ["extract_method"] * 2 + ["extract_variable"] * 2 + ["inline"] * 2 + ["change_signature"] * 2 +
                  ["introduce_parameter", "introduce_factory", "encapsulate_field", "local_to_field", "method_object",
-                  "module_to_package", "organize", "organize", "restructure", "use_function", "generate"])
+                  "module_to_package", "organize", "organize", "restructure", "use_function", "generate", "multi_rename", "multi_rename"])
         k = rng.choice(kinds)
         pathpool = inproj * 8 + pyfiles + ["ext:extmod.py", "ext:extpkg/__init__.py", "ext:extpkg/tools.py", "notes.txt"]
         st = {"kind": k, "path": rng.choice(pathpool)}
         malformed = rng.random() < swarm["p_malformed"]
-        if k in ("rename", "move_global", "move_method", "inline", "change_signature", "introduce_parameter",
+        if k in ("rename", "multi_rename", "move_global", "move_method", "inline", "change_signature", "introduce_parameter",
                  "introduce_factory", "encapsulate_field", "local_to_field", "method_object", "use_function", "generate"):
             # pick an identifier that occurs in the file
             try:
@@ -620,6 +634,56 @@ class EffectsEngine(Engine):
 
     def replay(self, trace):
         return self._go(trace, None)
+
+    def _multi(self, out, u, st, i, sig, project_changes):
+        """Multi-project refactoring: each project's change set may touch only its own project."""
+        from rope.refactor import multiproject
+
+        roots = {id(u.project): "proj", id(u.project2): "proj2"}
+        announced = set()
+        for proj, cs in project_changes:
+            base = roots.get(id(proj))
+            for r in cs.get_changed_resources():
+                if r is None:
+                    continue
+                if r.project is not proj or base is None:
+                    is_target = os.path.realpath(r.real_path) == os.path.realpath(os.path.join(u.root, *st["path"].split("/")))
+                    out.violate("announces_forbidden_resource", dict(sig, what="other-project", resource_is_target=is_target),
+                                {"step": i, "request": _brief(st), "resource": str(r.path)}, where=i)
+                    return True
+                announced.add(base + "/" + r.path.lstrip("/"))
+        out.stats["probe_multi_project_changes"] += 1
+        if len(announced) >= 2:
+            out.nontrivial(_key(st), "multi")
+        if not st.get("perform"):
+            return True
+        pre = u.snap(meta=False)
+        audit_start(u.dir)
+        pexc = None
+        try:
+            multiproject.perform(project_changes)
+        except Exception as e:
+            pexc = e
+        events = audit_stop()
+        post = u.snap(meta=False)
+        changed = sorted(k for k in set(pre) | set(post) if pre.get(k) != post.get(k))
+        touched = set(changed) | {p for _, p in events}
+        out.stats["performed"] += 1
+        out.log.add(ev="perform_multi", i=i, exc=type(pexc).__name__ if pexc else None, changed=changed)
+        if pexc is not None:
+            out.violate("perform_failed_and_left_changes" if post != pre else "internal_exception",
+                        dict(sig, exc=type(pexc).__name__, frame=innermost_rope_frame(pexc), msg=norm_msg(pexc), phase="perform"),
+                        {"step": i, "request": _brief(st), "exc": repr(pexc)[:300], "changed": changed[:8]}, where=i)
+            return post == pre
+        bad = [p for p in sorted(touched) if not any(p == a or p.startswith(a + "/") for a in announced)]
+        for p in bad[:3]:
+            out.violate("unannounced_path_modified", dict(sig), {"step": i, "request": _brief(st), "path": p,
+                                                                 "announced": sorted(announced)}, where=i)
+        for a in sorted(announced):
+            if not any(x == a or x.startswith(a + "/") for x in touched):
+                out.violate("announced_but_untouched", dict(sig), {"step": i, "request": _brief(st), "path": a}, where=i)
+                return False
+        return not bad
 
     def _go(self, trace, rng):
         from rope.base import exceptions
@@ -727,6 +791,11 @@ class EffectsEngine(Engine):
                     continue
                 if stopped:
                     out.stats["stop_too_late"] += 1
+                if isinstance(changes, tuple) and changes[0] == "multi":
+                    if not self._multi(out, u, st, i, sig, changes[1]):
+                        break
+                    performed += 1 if st.get("perform") else 0
+                    continue
                 # ---------------- announced resources
                 ann = list(changes.get_changed_resources())
                 ann_paths = []
@@ -898,6 +967,10 @@ def _has_non_package_folder(u):
             if any(q.startswith(p + "/") and q.endswith(".py") for q in t):
                 return True
     return False
+
+
+def _multi_dummy():
+    return None
 
 
 def _key(st):
